@@ -12,7 +12,9 @@ const charSet string = "0123456789ABCDEFGHIJKLMNOPQRSTUVWXYZ $%*+-./:"
 
 func stringToAlphaIdx(content string) <-chan int {
 	result := make(chan int)
+	verifEmit("go.spawn", result, 3, 0)
 	go func() {
+		defer verifEmit("go.exit", result, 3, 0)
 		for _, r := range content {
 			idx := strings.IndexRune(charSet, r)
 			result <- idx
